@@ -14,7 +14,10 @@ def describe(e):
 
 
 def run(R):
-    R.rule = ("T: MC_Edwards on complete toy curves: every formula variant (add, sub, double, mixed Niels add/sub, neg, x8) equals the "
+    R.rule = ("T: MC_C03: the loops of every scalar-multiplication routine (ScalarMul.tla: variable base serial/vector, table-driven "
+              "fixed base, Straus constant-time and NAF, double base with its starting index, Pippenger with both running sums at two "
+              "window widths, ABGLSV-Pornin with its sign handling and split) fed with the digit sequences of Recoding.tla return "
+              "sum [s_i]P_i on a complete toy group for every point and (thorough) every 15-bit scalar; MC_Edwards on complete toy curves: every formula variant (add, sub, double, mixed Niels add/sub, neg, x8) equals the "
               "affine law for every point pair in several projective scalings, double-and-add equals repeated addition for every point "
               "and every (unreduced) scalar string; R: in-package recorder: all 8x8 torsion pairs, mixed-order points in random "
               "scalings, Mul / MulBasepoint (live table, packed generic table, run-time built table) / double-base / constant-time and "
@@ -22,6 +25,7 @@ def run(R):
               "Straus/Pippenger thresholds; TLC recomputes sum [s_i]P_i at real scale; distinct = distinct events")
     R.assumptions += ["TLC/SANY, CommunityModules overrides", "BigNat/F25519", "Element.ToBytes for reading coordinates (C04)",
                       "grouping of equal points in large multiscalar events (linearity of scalar multiplication)"]
+    R.mc("MC_C03", "MC_C03_Toy29.cfg" if R.tier == "quick" else "MC_C03_Toy29_full.cfg", timeout=5400)
     for c in ["MC_Edwards_Toy29.cfg"] + (["MC_Edwards_Toy61.cfg", "MC_Edwards_Toy109.cfg"] if R.tier == "thorough" else []):
         R.mc("MC_Edwards", c, timeout=3000)
     plan = [("default", {"VERIF_N": 36, "VERIF_BIG": 1}), ("noavx2", {"VERIF_N": 18, "VERIF_BIG": 0})]
